@@ -94,6 +94,28 @@ def tree_uses_outer_from_with(units):
     return False
 
 
+def render_plain(t):
+    """the plain rendering used for the DRIFT comparison with the design model: anonymous function
+    expressions and bare blocks only, so that the program declares exactly the bindings of the tree"""
+    units = t['units']
+    kids = {}
+    for i, u in enumerate(units):
+        kids.setdefault(u['par'], []).append(i)
+
+    def unit(i):
+        u = units[i]
+        b = ''.join('var %s="V%d_%s";' % (nm, i, nm) for nm in u['vs'])
+        b += ''.join('out("u%d",%s);' % (i, nm) for nm in u['us'])
+        b += ''.join(unit(k) for k in kids.get(i + 1, []))
+        lets = ''.join('let %s="L%d_%s";' % (nm, i, nm) for nm in u['ls'])
+        if u['kind'] == 'F':
+            if u['w']:
+                b = 'with({}){' + b + '}'
+            return '(function(%s){%s%s})(%s);' % (','.join(u['ps']), lets, b, ','.join('"P%d_%s"' % (i, p) for p in u['ps']))
+        return '{%s%s}' % (lets, b)
+    return ''.join('let %s="T_%s";' % (nm, nm) for nm in t['top']) + ''.join(unit(k) for k in kids.get(0, []))
+
+
 def render_tree(t, rnd):
     """t = {'units': [...], 'top': [...]}; returns JS source"""
     units = t['units']
